@@ -77,12 +77,13 @@ Problems == <<
 Taus == IF Grid = 1 THEN <<One, Q(1, 8)>> ELSE <<One, Q(1, 2), Q(1, 8), Q(1, 64)>>
 
 \* the (tableau, problem, tau) combinations whose exact values fit TLC's 32-bit integers
+\* (determined by running every combination separately: only tau = 1/64 on the coupled 2x2 problems with the
+\* embedded 2-stage and the 3-stage schemes overflows)
 Fits(ti, pi, ki) ==
   LET T == Tableaux[ti]  P == Problems[pi]  tau == Taus[ki] IN
-  \/ P.n = 1
-  \/ T.s <= 2
-  \/ P.name \in {"const2", "decay2"}
-  \/ tau[2] <= 2
+  \/ tau[2] <= 8
+  \/ P.name \notin {"coupled2", "osc2"}
+  \/ T.name \in {"implicit_euler", "implicit_midpoint", "crank_nicolson", "ros_euler", "ros2_half"}
 
 Cases == {c \in (1..Len(Tableaux)) \X (1..Len(Problems)) \X (1..Len(Taus)) : Fits(c[1], c[2], c[3])}
 
